@@ -275,3 +275,38 @@ fn c19_default_clone_deref() {
     std::mem::forget(w2);
     std::mem::forget(d);
 }
+
+// A wrapper inside a wrapper (self-referential types nest them): still exactly one call reaches the value, with the caller's
+// arguments and the value's result; a clone of a clone shares the one value.
+#[kani::proof]
+#[kani::unwind(4)]
+fn c19_nested_wrappers() {
+    let (ok, b) = script();
+    let tag: u8 = kani::any();
+    let w: MultiRef<MultiRef<Probe>> = MultiRef::new(MultiRef::new(Probe { tag }));
+    let r = Rc::new(Restrictions::default());
+    std::mem::forget(r.clone());
+    let addr = Rc::as_ptr(&r) as usize;
+    let res = w.check_restrictions(Some(r));
+    let (seen, _) = one_event(Ev::Check, tag);
+    assert!(seen == addr, "C19 nested: the same restriction set is handed on");
+    match &res {
+        Ok(()) => assert!(ok, "C19 nested: same restriction result"),
+        Err(SoapError::Restriction(s)) => assert!(!ok && s.as_bytes().len() == 1 && s.as_bytes()[0] == b, "C19 nested: same restriction error"),
+        Err(_) => assert!(false, "C19 nested: same restriction error kind"),
+    }
+    unsafe { NLOG = 0 };
+    let w2 = w.clone();
+    let w3 = w2.clone();
+    assert!(unsafe { NLOG } == 0, "C19 nested: clone does not copy the value");
+    assert!(Arc::ptr_eq(&*w, &*w3), "C19 nested: a clone of a clone shares the outer value");
+    assert!(Arc::ptr_eq(&***w, &***w3), "C19 nested: ... and the inner one");
+    assert!(Arc::strong_count(&*w) == 3 && Arc::strong_count(&***w) == 1, "C19 nested: share counts");
+    assert!((***w3).tag == tag, "C19 nested: deref reaches the value");
+    kani::cover!(res.is_ok(), "ok path");
+    kani::cover!(res.is_err(), "err path");
+    std::mem::forget(res);
+    std::mem::forget(w);
+    std::mem::forget(w2);
+    std::mem::forget(w3);
+}
